@@ -3,27 +3,41 @@ The pieces of the event loop (/repo/rumqttc/src/eventloop.rs, v5/eventloop.rs) t
 client-state properties C07/C02/C10/C11 mention:
 
 * `selectEnabled` — the guard of the request branch of `select!`:
-    `!self.pending.is_empty() || (!inflight_full && !collision)` with
+    `pending_ready || (self.pending.is_empty() && !inflight_full && !collision)` with
     `inflight_full = state.inflight >= <limit>` (v4: `mqtt_options.inflight`, the value the state
-    was created with; v5: `state.max_outgoing_inflight`) and `collision = state.collision.is_some()`;
-* `loopClean` — `EventLoop::clean`: `pending.extend(state.clean())`, then the requests still in
-    the channel are appended, `Request::PubAck` dropped (`PubRec` is NOT dropped);
+    was created with; v5: `state.max_outgoing_inflight`), `collision = state.collision.is_some()`
+    and `pending_ready` = the head of `pending` owns a packet id (a retransmission: never held
+    back) or the window is open (a request without an id obeys flow control like the channel);
+* `loopClean` — `EventLoop::clean`: what `state.clean()` returns is put IN FRONT of what was still
+    waiting in `pending`, then the requests still in the channel are appended, `Request::PubAck`
+    dropped (`PubRec` is NOT dropped);
 * `sstep` — one operation on the bare state machine as the harness `vh cstate` performs it
     (call, drain `events`, look at `clean()` of a clone, `collision`, `inflight()`): produces the
     observation `Obs` the monitors of `Model/Client/Spec.lean` read;
-* `lstep` — the loop's use of the state machine: `next_request` prefers `pending`, a user request
-    is taken from the channel only when `pending` is empty and the gate is open, pings and
-    incoming packets are not gated, a connection error runs `clean`, a CONNACK without
-    `session_present` clears `pending`. (Timing, batching, the channel and the reconnect handshake
+* `lstep` — the loop's use of the state machine: `next_request` prefers `pending` (its head is
+    taken when `pending_ready`), a user request is taken from the channel only when `pending` is
+    empty and the window is open, pings and incoming packets are not gated, a connection error
+    runs `clean`, a CONNACK without `session_present` clears `pending`. (Timing, batching, the channel and the reconnect handshake
     belong to the later event-loop slice.)
 Import-free apart from the state model.
 -/
 import Model.Client.State
 namespace Client
 
+/-- `!inflight_full && !collision`: a NEW request may be taken -/
+def windowOpen (s : State) : Bool := !decide (s.inflight ≥ s.maxInflight) && !s.collision.isSome
+
+/-- `pending_ready`: the head of `pending` is a retransmission (owns a packet id: never held back)
+    or the window is open -/
+def pendingReady (s : State) : List Request → Bool
+  | [] => false
+  | .publish p :: _ => p.pkid != 0 || windowOpen s
+  | .pubrel _ :: _ => true
+  | _ :: _ => windowOpen s
+
 /-- guard of the request branch in `EventLoop::select` -/
 def selectEnabled (s : State) (pending : List Request) : Bool :=
-  !pending.isEmpty || (!decide (s.inflight ≥ s.maxInflight) && !s.collision.isSome)
+  pendingReady s pending || (pending.isEmpty && windowOpen s)
 
 def keepOnClean : Request → Bool
   | .puback _ => false
@@ -33,7 +47,7 @@ def keepOnClean : Request → Bool
 def loopClean (s : State) (pending channel : List Request) : Option (State × List Request) :=
   match clean s with
   | none => none
-  | some r => some (r.1, pending ++ r.2 ++ channel.filter keepOnClean)
+  | some r => some (r.1, r.2 ++ pending ++ channel.filter keepOnClean)
 
 /-- operations of the correspondence harness on the bare state machine -/
 inductive SOp
@@ -109,7 +123,7 @@ def UserReq.toRequest : UserReq → Request
 inductive LOp
   /-- a request waits in the channel; taken iff `pending` is empty and the gate is open -/
   | user (u : UserReq)
-  /-- `next_request` pops the head of `pending` (no-op when empty); not subject to the gate -/
+  /-- `next_request` pops the head of `pending` (no-op when empty or not `pending_ready`) -/
   | pend
   /-- keep-alive timer fires -/
   | ping
@@ -131,7 +145,7 @@ def lop? (l : LState) : LOp → Option SOp
   | .pend =>
     (match l.pending with
      | [] => none
-     | r :: _ => some (.out r))
+     | r :: _ => if pendingReady l.st l.pending then some (.out r) else none)
   | .ping => some (.out .pingreq)
   | .inc p => some (.inc p)
   | .fail => some .clean
@@ -140,7 +154,7 @@ def lop? (l : LState) : LOp → Option SOp
 def lpending (l : LState) (op : LOp) (o : Obs) : List Request :=
   match op with
   | .pend => l.pending.tail
-  | .fail => l.pending ++ o.cleaned
+  | .fail => o.cleaned ++ l.pending
   | .newSession => []
   | _ => l.pending
 
